@@ -223,20 +223,21 @@ def runI (tbl : List MethodRec) (O : Oracles) (c : ClassOpts) (fields : List (St
 inductive Side where | orig | copy
 deriving Repr, DecidableEq, Inhabited
 
-/-- an interleaved history on a pair (original, copy) -/
+/-- an interleaved history on a pair (original, copy); every outcome is tagged with its side -/
 def run2 (tbl : List MethodRec) (O : Oracles) (c : ClassOpts) (fields : List (String × FieldDecl)) :
-    Inst × Inst → List (Side × Op) → (Inst × Inst) × List Outcome
+    Inst × Inst → List (Side × Op) → (Inst × Inst) × List (Side × Outcome)
   | p, [] => (p, [])
   | p, (.orig, op) :: rest =>
     let r := stepI tbl O c fields p.1 op
     let t := run2 tbl O c fields (r.1, p.2) rest
-    (t.1, r.2 :: t.2)
+    (t.1, (.orig, r.2) :: t.2)
   | p, (.copy, op) :: rest =>
     let r := stepI tbl O c fields p.2 op
     let t := run2 tbl O c fields (p.1, r.1) rest
-    (t.1, r.2 :: t.2)
+    (t.1, (.copy, r.2) :: t.2)
 
-def opsOf (s : Side) (h : List (Side × Op)) : List Op :=
+/-- the part of a tagged list that belongs to one side -/
+def sideOf {α} (s : Side) (h : List (Side × α)) : List α :=
   (h.filter (fun so => so.1 == s)).map (·.2)
 
 end Typedpy
